@@ -216,6 +216,7 @@ func verifC27Exec(op string) string {
 
 	case "file":
 		i := verifutil.Atoi(f[1])
+		s.cur, s.curPath = nil, ""
 		if i >= len(s.paths) {
 			return "nofile"
 		}
